@@ -28,6 +28,7 @@ def check(chk, thorough=False):
     chk.run('C16.p', 'R-SCHEMA', 'a bundle protected by a BCB is encrypted once, as a whole: the security steps do not run again for the fragments it is cut into (else reassembly never yields the ciphertext that was produced) (= C05.e)', lambda ob: __import__('sa.props.c05', fromlist=['c05e']).c05e(tree, ob), floor=3)
     chk.run('C16.q', 'R-PAIR', 'ciphertext in transit is left alone: the encoded data of a block is dropped only where its parsed payload was edited (an encrypted extension block has none) (= C05.g)', lambda ob: __import__('sa.props.c05', fromlist=['c05g']).c05g(tree, ob), floor=1)
     chk.run('C16.r', 'R-ESCAPE', 'a payload that is ciphertext under the admin flag stays opaque data whatever way it fails to parse: the handler around the record parse is broad (= C02.h)', lambda ob: __import__('sa.props.c02', fromlist=['c02h']).c02h(tree, ob), floor=1)
+    chk.run('C16.s', 'R-WHO', 'the key a message is decrypted with is the one the stores hold now: key resolution keeps no memo of its own (a replaced or withdrawn key stops working at once)', lambda ob: key_resolution_stateless(tree, ob), floor=1)
     chk.run('C16.o', 'R-TYPE', 'ciphertext taken from a reassembled bundle reaches the COSE library as bytes: the byte-string field normalises a bytearray (folded m2i)', lambda ob: c16o(tree, ob), floor=1)
     chk.run('C16.d', 'R-FLOW', 'BCB uses the same external AAD construction as BIB (= C03.a/b on apply_bcb)', lambda ob: (c03a(tree, ob, 'apply_bcb'), c03b(tree, ob)), floor=8)
 
@@ -273,3 +274,22 @@ def c16o(tree, ob):
                    'exactly bytes -- the confidentiality block of a genuine fragmented bundle fails and the bundle is deleted', out.node or m, sure=True)
     else:
         ob.violate(rel, 'BstrField.m2i', 'm2i(bytearray(...))', 'the byte-string field does not turn a bytearray into bytes', out.node or m)
+
+
+def key_resolution_stateless(tree, ob):
+    SECA = 'bp/app/bpsec.py'
+    fv = FuncView(tree, SECA, 'CoseContext._get_cose_key')
+    writes = []
+    for st in walk_local(fv.func):
+        if isinstance(st, (ast.Assign, ast.AugAssign)):
+            for t in (st.targets if isinstance(st, ast.Assign) else [st.target]):
+                base = t.value if isinstance(t, ast.Subscript) else t
+                if self_attr(base):
+                    writes.append(st)
+        elif isinstance(st, ast.Call) and isinstance(st.func, ast.Attribute) and st.func.attr in ('setdefault', 'update', 'add', 'append') and self_attr(st.func.value):
+            writes.append(st)
+    if writes:
+        ob.violate(SECA, fv.qual, src(writes[0])[:70], 'key resolution remembers what it resolved in the context object: after the key under an identifier was replaced (or a certificate withdrawn) '
+                   'messages protected with the old key are still decrypted / verified by this context', writes[0], sure=True)
+    else:
+        ob.site(SECA, fv.func, '_get_cose_key writes nothing into the context: every call reads the stores as they are')
